@@ -215,6 +215,9 @@ func (x *Exec) havocHeaps(st *State, ws *writeSet, mods []modObj, frame bool) {
 		if et, ok := x.heapElem[k.key]; ok {
 			st.assume(x.heapRefsBounded(nh, et, st.alloc)...)
 		}
+		if mt, ok := x.mapValType[k.key]; ok {
+			st.assume(x.mapRefsBounded(nh, mt, st.alloc)...)
+		}
 		if !frame {
 			continue
 		}
@@ -648,7 +651,7 @@ func (x *Exec) appendCall(st *State, in *ssa.Call, args []Value) []Outcome {
 		x.counter++
 		jz := Atom(fmt.Sprintf("j!z%d", x.counter), SInt)
 		st.assume(&Term{Op: "forall", Sort: SBool, Bound: []*Term{jz}, Args: []*Term{
-			Implies(Le(newLen, jz), Eq(Select(Select(st.heap[key], ref), jz), x.ti.ZeroTerm(elem)))}, Pats: []*Term{Select(Select(st.heap[key], ref), jz)}})
+			Implies(Le(newLen, jz), Eq(Select(na, jz), x.ti.ZeroTerm(elem)))}, Pats: []*Term{Select(na, jz)}})
 		outs = append(outs, Outcome{st, []Value{TV{MkSlice(ref, IntLit(0), newLen, ncap), rt}}})
 	}
 	return outs
